@@ -602,6 +602,10 @@ func (f *SQLFormatter) formatJoin(join *ast.JoinClause) error {
 
 // formatExpression formats SQL expressions
 func (f *SQLFormatter) formatExpression(expr ast.Expression) error {
+	if expr == nil {
+		// e.g. the missing right operand of the NOT EXISTS representation
+		return nil
+	}
 	switch e := expr.(type) {
 	case *ast.Identifier:
 		if e.Table != "" {
